@@ -1,22 +1,28 @@
 """Configuration of ./check for property C01 (loaded by tools/props.py)."""
 
-PROP = {'engine': 'msg',
- 'lean_props': ['MuscleModel.Props.C01'],
+PROP = {'assumptions': ['sizes below 2^32 (Fits32)', 'nesting depth within MUSCLE_MAX_MESSAGE_NESTING_DEPTH', 'B_ANY_TYPE is not used as a data type code'],
+ 'engine': 'msg',
  'harnesses': [{'name': 'msg', 'sources': ['harness/msg.cpp']}],
- 'trusted_base': ['hand-written Lean model of Message::Flatten/Unflatten/FlattenedSize and the public mutators (lean/MuscleModel/Wire)',
-                  'type codes, protocol version, per-type wire sizes and the nesting limit are regenerated from /repo on every run (tools/extract_consts.cpp)'],
- 'assumptions': ['sizes below 2^32 (Fits32)', 'nesting depth within MUSCLE_MAX_MESSAGE_NESTING_DEPTH', 'B_ANY_TYPE is not used as a data type code'],
+ 'lean_props': ['MuscleModel.Props.C01'],
  'rule': 'random op sequences over a register file of 8 Messages (add/prepend/remove/replace/rename/copy/flatten/unflatten/compare), every op executed on the '
          'real Message class and on the Lean model; flatten bytes, sizes, dumps and equality results must agree; the direct round-trip oracle runs on every '
-         'flatten; distinct = distinct case bodies'}
+         'flatten; distinct = distinct case bodies',
+ 'trusted_base': ['hand-written Lean model of Message::Flatten/Unflatten/FlattenedSize and the public mutators (lean/MuscleModel/Wire)',
+                  'type codes, protocol version, per-type wire sizes and the nesting limit are regenerated from /repo on every run (tools/extract_consts.cpp)']}
 
 TEXT = {'design_ref': 'DESIGN.md section 4, C01',
- 'technique': 'Lean 4 theorems (round trip, byte-exact re-encoding, exact size, writer agreement) over a hand-written model of the Message codec + '
-              'differential correspondence of model and real code on random API op sequences',
+ 'note': 'Assumes sizes < 2^32 and nesting within MUSCLE_MAX_MESSAGE_NESTING_DEPTH (explicit hypotheses).  Trusted: Lean kernel, the statement files, the '
+         'correspondence harness (sampling), constants regenerated from /repo headers.  The model is hand-written; a defect the generators never reach and the '
+         'model does not share stays invisible.',
+ 'technique': 'Lean 4 theorems (round trip, byte-exact re-encoding, exact size, writer agreement, checksum invariance, truncation) over a hand-written model '
+              'of the Message codec + differential correspondence of model and real code on random API op sequences',
  'text': 'Proved in Lean for every well-formed Message value (all field types, counts, nesting, orders): decode(encode m) = canonical m, re-encoding '
          'reproduces the bytes, size function = number of bytes written, inline and array writers agree; mutators preserve well-formedness.  The model is tied '
          'to the C++ code by running both on the same random op sequences (bytes, sizes, dumps, equality results must be identical) and by a direct round-trip '
-         'oracle on the real Message class.',
- 'note': 'Assumes sizes < 2^32 and nesting within MUSCLE_MAX_MESSAGE_NESTING_DEPTH (explicit hypotheses).  Trusted: Lean kernel, the statement files, the '
-         'correspondence harness (sampling), constants regenerated from /repo headers.  The model is hand-written; a defect the generators never reach and the '
-         'model does not share stays invisible.'}
+         'oracle on the real Message class.  The content checksum is part of the model (`Wire/Checksum.lean`, transcribed from Message::CalculateChecksum, the '
+         'array classes, SingleCalculateChecksum, Point/Rect/String/ByteBuffer and the MurmurHash2 of CalculateHashCode; op `cksum` compared line by line): '
+         '`checksum_trip` and `checksum_decode_encode` (the parse of the serialisation has the same checksum), `checksum_rep_independent` (inline and array '
+         'code paths agree), `checksum_order_independent`.  Truncation: a strict prefix of an encoding never parses to the same Message '
+         '(`decode_strict_prefix_fails`, `decode_strict_prefix_smaller`, `decode_truncated_head_fails`); the plain "a truncated buffer is rejected" is false '
+         'of code and model alike (`decode_strict_prefix_none_is_false`, corpus/C01/msg-truncated-at-payload.ops) - an observation, no listed property forbids '
+         'it.'}
